@@ -559,6 +559,14 @@ class C02(Prop):
                               'what': 'TransportTCP writes %s but length-prefixed one-shot encoding is %s' % (''.join(obs['writes'])[:80], (len(whole).to_bytes(3, 'big') + whole).hex()[:80])})
             if obs['with_len'] != (len(whole).to_bytes(3, 'big') + whole).hex():
                 fails.append({'signature': 'length-header-wrong:' + s['t'], 'what': 'serialize_with_frame_size_header disagrees with len(serialize())'})
+        elif case['kind'] == 'dec':
+            # whatever comes out of the decoder is in the bytes: an ERROR frame carries the code of its bytes 6..10, never a substitute
+            if obs['dec'].startswith('ERROR '):
+                blob = bytes.fromhex(case['blob'])
+                f = dict(t.split('=', 1) for t in obs['dec'].split(' ')[1:] if '=' in t)
+                if len(blob) >= 10 and int(f['code']) != int.from_bytes(blob[6:10], 'big'):
+                    fails.append({'signature': 'decoded-field-not-in-the-bytes:ERROR', 'what': 'the bytes %s carry error code 0x%08x, the decoder returns an ERROR frame with code 0x%08x' % (
+                        case['blob'][:60], int.from_bytes(blob[6:10], 'big'), int(f['code']))})
         elif case['kind'] == 'reuse':
             t = obs['dump'].split(' ')[0]
             whole = bytes.fromhex(obs['hex'])
